@@ -76,11 +76,11 @@ pub struct MacroCase {
 }
 pub const MODS: [&str; 4] = ["digraph", "sync_digraph", "ungraph", "sync_ungraph"];
 
-fn macro_case_strategy() -> impl Strategy<Value = MacroCase> {
-    (0usize..4, prop_oneof![Just(Form::K), Just(Form::KN), Just(Form::KE), Just(Form::KNE)], any::<bool>(), proptest::collection::btree_set(0u32..40, 0..=6), proptest::option::weighted(0.15, (any::<u16>(), 41u32..60))).prop_flat_map(|(flavour, form, str_keys, keys, bad)| {
+fn macro_case_strategy(min_nodes: usize, max_nodes: usize, max_edges: usize) -> impl Strategy<Value = MacroCase> {
+    (0usize..4, prop_oneof![Just(Form::K), Just(Form::KN), Just(Form::KE), Just(Form::KNE)], any::<bool>(), proptest::collection::btree_set(0u32..40, min_nodes..=max_nodes), proptest::option::weighted(0.15, (any::<u16>(), 41u32..60))).prop_flat_map(move |(flavour, form, str_keys, keys, bad)| {
         let keys: Vec<u32> = keys.into_iter().collect();
         let n = keys.len();
-        let per_node = proptest::collection::vec((-50i64..50, prop_oneof![4 => Just(true), 1 => Just(false)], proptest::collection::vec((any::<u16>(), 0i64..20, any::<bool>(), 0u8..100), 0..=4)), n);
+        let per_node = proptest::collection::vec((-50i64..50, prop_oneof![4 => Just(true), 1 => Just(false)], proptest::collection::vec((any::<u16>(), 0i64..20, any::<bool>(), 0u8..100), 0..=max_edges)), n);
         (per_node, any::<u16>()).prop_map(move |(per, shuffle)| {
             // listed order of nodes: a rotation of the sorted keys so that forward references occur
             let rot = if n == 0 { 0 } else { pt::idx(shuffle, n) };
@@ -312,9 +312,12 @@ pub fn run_c14(ctx: &mut Ctx) {
     let per = tier.pick(400usize, 500usize);
     let wd = ctx.watchdog.clone();
     wd.limit_s.store(600, std::sync::atomic::Ordering::Relaxed);
-    let strat = macro_case_strategy();
+    let strat = macro_case_strategy(0, 6, 4);
+    // large invocations: 10-24 nodes with up to 9 edges each (buffers, thresholds, long listed orders)
+    let large = macro_case_strategy(16, 30, 9);
     for b in 0..batches {
-        let cases = sample(ctx.seed, 900 + b as u64, per, &strat);
+        let mut cases = sample(ctx.seed, 900 + b as u64, per, &strat);
+        cases.extend(sample(ctx.seed, 940 + b as u64, tier.pick(160, 200), &large));
         let src = c14_program(&cases);
         let built = match build_and_run("C14", &[("c14", src)], &wd) {
             Ok(b) => b,
@@ -366,6 +369,13 @@ pub fn run_c14(ctx: &mut Ctx) {
             if c.nodes.iter().any(|n| !n.2) {
                 ctx.stats.class("macro.has-omitted-edge-list");
             }
+            let ne: usize = c.nodes.iter().map(|n| n.3.len()).sum();
+            ctx.stats.class(match ne {
+                0..=7 => "macro.edges.0-7",
+                8..=31 => "macro.edges.8-31",
+                32..=63 => "macro.edges.32-63",
+                _ => "macro.edges.64+",
+            });
             if c.nodes.len() >= 3 && fwd {
                 ctx.stats.sample_kind(MODS[c.flavour], 1, || json!({"invocation": invocation(c), "denotation": denotation(c).0}));
             }
